@@ -349,7 +349,19 @@ impl Scenario for C12 {
             // (the finding needs both: the sibling is read first, and it outweighs the main chain's blocks from its
             // height to the tip; anything else that brings the node back on the sibling is not this finding)
             let main_weight: u128 = c.recs[main_sibling..=plan.n_blocks].iter().map(|b| b.burnfee as u128).sum();
-            let sibling_outweighs = !side.is_empty() && (side[0].burnfee as u128) > main_weight;
+            // (a sibling of the tip itself needs no weight: a chain of the same length never displaces the one
+            // that was read first)
+            let sibling_outweighs = !side.is_empty() && (plan.fork_at_tip || (side[0].burnfee as u128) > main_weight);
+            if std::env::var("VERIF_DEBUG").is_ok() && clean && tip.1 != final_tip.1 {
+                eprintln!(
+                    "clean restart differs: tip is side[0]: {}, side ts {} main ts {}, side burnfee {:?} main weight {}",
+                    !side.is_empty() && tip.1 == side[0].hash,
+                    side.first().map(|x| x.ts).unwrap_or(0),
+                    main_sibling_ts,
+                    side.first().map(|x| x.burnfee),
+                    main_weight
+                );
+            }
             if clean && tip.1 != final_tip.1 && sibling_outweighs && tip.1 == side[0].hash && side[0].ts < main_sibling_ts {
                 // recorded finding: start-up re-runs the fork choice in file-name (timestamp) order. A stored
                 // sibling that carries an earlier timestamp than the main chain's block of its height is then seen
